@@ -7,7 +7,9 @@
    theorems about loops whose read windows, found offsets, cursor updates
    and start-of-file stop test ARE the source's. *)
 From Coq Require Import String ZArith List Bool Lia.
-From SK Require Import Model.Base Model.Seek Model.SinceSeek Gen.Exprs Gen.XSeek.
+From SK Require Import Model.Base Model.Seek Model.SinceSeek Model.Skel
+     Model.Stm Model.SequenceSk Model.SinceSeekSk Proofs.SinceSeekSk Gen.Exprs
+     Gen.XSeek Gen.SkelTree.
 Import ListNotations.
 Open Scope Z_scope.
 
@@ -126,7 +128,34 @@ Theorem C11_logline_fields_are_source :
   In (search_state_offset_attr, "offset"%string) search_state_init_fields.
 Proof. vm_compute. intuition. Qed.
 
+(* ---- where apply_to_file leaves the file (last sentence of C11) -----------
+   The try statement of the CURRENT apply_to_file, interpreted with the seek
+   targets extracted from the source, positions the file as the model does -
+   with destructive=True and with destructive=False: every give-up handler
+   seeks unconditionally (to 0 or to the end of the file), a successful
+   non-destructive search seeks back to where the file was. *)
+Theorem C11_apply_to_file_positions_are_source :
+  forall H A L W tsw c since pos0,
+  try_of (calls_only_list tk_apply_to_file) = [expected_apply_try] /\
+  apply_seek_sites = expected_seek_sites /\
+  ap_interp apply_seek_sites (lenZ c) pos0 (run H A L W tsw c since pos0)
+            true (try_of (calls_only_list tk_apply_to_file))
+  = apply_to_file H A L W tsw c since pos0 /\
+  ap_interp apply_seek_sites (lenZ c) pos0 (run H A L W tsw c since pos0)
+            false (try_of (calls_only_list tk_apply_to_file))
+  = apply_to_file_nd H A L W tsw c since pos0.
+Proof.
+  intros.
+  assert (E1 : try_of (calls_only_list tk_apply_to_file) = [expected_apply_try])
+    by (vm_compute; reflexivity).
+  assert (E2 : apply_seek_sites = expected_seek_sites) by reflexivity.
+  rewrite E1, E2. repeat split.
+  - apply ap_interp_correct.
+  - apply ap_interp_correct_nd.
+Qed.
+
 Print Assumptions C11_find_token_loop_is_source.
+Print Assumptions C11_apply_to_file_positions_are_source.
 Print Assumptions C11_logline_date_window_is_source.
 Print Assumptions C11_logline_len_is_source.
 Print Assumptions C11_logline_fields_are_source.
